@@ -364,6 +364,14 @@ outer:
 			}
 			for i := range patternParts {
 				if patternParts[i] == "*" {
+					// a wildcard stands for exactly one non-empty label, as in
+					// TLS server name matching (certmagic.MatchWildcard): if it
+					// also matched an empty label, ".example.com" would be routed
+					// to "*.example.com" although no TLS connection policy for
+					// "*.example.com" (client auth!) applies to that server name
+					if incomingParts[i] == "" {
+						continue outer
+					}
 					continue
 				}
 				if !strings.EqualFold(patternParts[i], incomingParts[i]) {
